@@ -391,7 +391,7 @@ func procScript(rng *plan.Rand, news int) []plan.DevStep {
 					s = append(s, plan.DevStep{E: []string{"temp", "eagain", "eintr"}[rng.Intn(3)]})
 				}
 			} else {
-				s = append(s, plan.DevStep{E: []string{"eof", "ueof", "err", "weof", "closed", "temp", "eagain", "eintr"}[rng.Intn(8)]})
+				s = append(s, plan.DevStep{E: []string{"eof", "ueof", "err", "weof", "closed", "temp", "eagain", "eintr", "isall", "wisall"}[rng.Intn(10)]})
 			}
 		default:
 			s = append(s, plan.DevStep{D: rng.Range(1, 15), E: []string{"eof", "err", "temp", "eagain"}[rng.Intn(4)]})
